@@ -2,8 +2,11 @@
 import OttoVerif.Base.Proto
 import OttoVerif.C01.Driver
 import OttoVerif.C01.FnDriver
+import OttoVerif.C01.CallDriver
 open OttoVerif
 
 def main (_args : List String) : IO UInt32 := do
-  Proto.loop (← IO.getStdin) (← IO.getStdout) (fun ws => match C01.FnDriver.handle ws with | some r => r | none => C01.Driver.handle ws)
+  Proto.loop (← IO.getStdin) (← IO.getStdout) (fun ws => match C01.CallDriver.handle ws with
+    | some r => r
+    | none => match C01.FnDriver.handle ws with | some r => r | none => C01.Driver.handle ws)
   return 0
